@@ -2,15 +2,19 @@ import RimeModel.Basic.Hex
 import RimeModel.C04.Menu
 import RimeModel.C04.Seg
 import RimeModel.C04.Translation
+import RimeModel.Gen.Keymaps
 /-! Line-protocol driver for C04 (same protocol as harness/c04_harness.cc).
 
 menu level (the ported Menu / MergedTranslation / filters on script-defined translations):
-  `reset` · `tr [cache] [distinct] <cand>*` · `menu <filter>*` (filters: uniq | olduniq | scf)
-  `prepare <n>` · `page <ps> <p>` · `at <i>` · `empty` · `count` · `dump`
+  `reset` · `tr [cache] [distinct] [prefetch<k>] [union] [unique] <cand>*` (`/` between the pieces of a union) ·
+  `menu <filter>*` (filters: uniq | olduniq | scf)
+  `prepare <n>` · `page <ps> <p>` · `at <i>` · `empty` · `count` · `dump` · `tprobe <n>` · `probe <n>`
   cand = `<text>:<comment>:<start>:<end>:<quality>:<t|s>` (hex, `-` = empty) or `null`
 segment level (the two read paths and paging over one candidate list):
   `seg <ps> <cycle>` (list = the current menu, drained) · `full <ps> <cycle> <text>:<comment>*` · `again`
   `ctx` · `hl <i>` · `hlp <i>` · `chpage +|-` · `key next|prior|up|down` · `list <from> <n>` · `L`
+  `layout <0..3>` (text orientation | candidate list layout, as the selector numbers its keymaps) · `keyc <keycode>` (the
+  selector's default binding of the key in that layout; `oos` when the selector leaves the key to the navigator)
 -/
 open RimeModel RimeModel.C04
 
@@ -41,6 +45,8 @@ structure DState where
   /-- the list of the last `seg` / `full`, for `again` -/
   lastFull : List (Bytes × Bytes) := []
   cfg : Cfg := { pageSize := 5 }
+  /-- `text_orientation | candidate_list_layout` of the selector (Vertical = 1, Linear = 2) -/
+  layout : Nat := 0
 
 def parseInt (s : String) : Option Int :=
   if s.startsWith "-" then (s.drop 1).toNat?.map (fun n => -(n : Int)) else s.toNat?.map (fun n => (n : Int))
@@ -88,6 +94,17 @@ def rearrangeGen (g : Gen DCand) : Gen DCand :=
   let isT : Option DCand → Bool := fun x => match x with | some c => c.table | none => false
   let pre := (g.takeWhile isT).filterMap id
   ((pre.filter isSingle ++ pre.filter (fun c => !isSingle c)).map some) ++ g.dropWhile isT
+
+/-- the words between `/` separators -/
+def splitSlash : List String → List (List String)
+  | [] => [[]]
+  | w :: ws =>
+    match splitSlash ws with
+    | [] => [[w]]
+    | p :: ps => if w == "/" then [] :: p :: ps else (w :: p) :: ps
+
+def showProbe (x : Option DCand × Bool × Bool) : String :=
+  (match x.1 with | some c => showCandA c 1 | none => "null") ++ s!",{b2s x.2.1},{b2s x.2.2}"
 
 def buildMenu (trs : List (Gen DCand)) (filters : List String) : Option AnyMenu :=
   let out := Merged.output dcmp (Merged.ofList dcmp trs)
@@ -186,7 +203,7 @@ def mkSeg (st : DState) (ps cycle : String) (l : List (Bytes × Bytes)) : Option
   | some ps =>
     if ps == 0 then none else
     some ({ st with seg := some { menu := { cache := [], rest := l.map some }, sel := 0 }, lastFull := l,
-                    cfg := { pageSize := ps, pageDownCycle := cycle == "1" } }, s!"seg {l.length}")
+                    cfg := { pageSize := ps, pageDownCycle := cycle == "1", linear := st.layout ≥ 2 } }, s!"seg {l.length}")
   | none => none
 
 def step (st : DState) (line : String) : DState × String :=
@@ -198,10 +215,23 @@ def step (st : DState) (line : String) : DState × String :=
   | "tr" :: rest =>
     let useCache := rest.contains "cache"
     let useDistinct := rest.contains "distinct"
-    let cs := rest.filter (fun s => s ≠ "cache" && s ≠ "distinct")
-    match parseAll parseCand cs with
+    let useUnion := rest.contains "union"
+    let useUnique := rest.contains "unique"
+    let isWrap : String → Bool := fun s => s == "cache" || s == "distinct" || s == "union" || s == "unique" ||
+      (s.length == 9 && s.startsWith "prefetch" && (s.drop 8).toNat?.any (fun k => 1 ≤ k && k ≤ 9))
+    let cs := rest.filter (fun s => !isWrap s)
+    if !useUnion && cs.contains "/" then bad else
+    match parseAll parseCand (cs.filter (· ≠ "/")) with
     | none => bad
-    | some g =>
+    | some gAll =>
+      if useUnique && (gAll.length ≠ 1 || useUnion || !gAll.all Option.isSome) then bad else
+      -- the pieces of a union, joined (a `PrefetchTranslation` whose `Replenish` queues candidates unchanged and a
+      -- `UniqueTranslation` of one candidate yield what a leaf translation with these candidates yields)
+      let pieces : Option (List (Gen DCand)) := (splitSlash cs).mapM (parseAll parseCand)
+      match pieces with
+      | none => bad
+      | some pieces =>
+      let g := if useUnion then unionGen pieces else gAll
       let g1 : Option (Gen DCand) :=
         if useDistinct then
           if g.all Option.isSome then some ((Distinct.output (·.text) (g.filterMap id)).map some) else none
@@ -211,6 +241,17 @@ def step (st : DState) (line : String) : DState × String :=
       | some g1 =>
         let g2 := if useCache then drainCache (g1.length + 1) (CacheTr.create g1) else g1
         ({ st with trs := st.trs ++ [g2] }, "tr ok")
+  | ["tprobe", n] =>
+    match n.toNat?, st.trs.getLast? with
+    | some n, some g =>
+      ({ st with trs := st.trs.dropLast }, "tprobe " ++ "|".intercalate ((Gen.probe n g).map showProbe))
+    | _, _ => bad
+  | ["probe", n] =>
+    match n.toNat? with
+    | some n =>
+      let m := Merged.ofList dcmp st.trs
+      ({ st with trs := [] }, s!"probe {b2s m.exhausted} " ++ "|".intercalate ((Merged.probe dcmp n m).map showProbe))
+    | none => bad
   | "menu" :: filters =>
     match buildMenu st.trs filters with
     | some m => ({ st with menu := some m, trs := [] }, "menu ok")
@@ -232,6 +273,29 @@ def step (st : DState) (line : String) : DState × String :=
     match st.seg with
     | some g => (st, "L " ++ showPairs g.menu.full)
     | none => bad
+  | ["layout", n] =>
+    match n.toNat? with
+    | some n => if n < 4 then ({ st with layout := n, cfg := { st.cfg with linear := n ≥ 2 } }, s!"layout {n}") else bad
+    | none => bad
+  | ["keyc", code] =>
+    match code.toNat?, st.seg with
+    | some code, some g =>
+      let km := match st.layout with
+        | 0 => RimeModel.Session.Gen.selectorKeymap0 | 1 => RimeModel.Session.Gen.selectorKeymap1
+        | 2 => RimeModel.Session.Gen.selectorKeymap2 | _ => RimeModel.Session.Gen.selectorKeymap3
+      let op : Option SegOp := match km.find (code : Int) 0 with
+        | some .previousCandidate => some .prevCand | some .nextCandidate => some .nextCand
+        | some .previousPage => some .prevPage | some .nextPage => some .nextPage
+        | some .home => some .home | some .end_ => some .home     -- the caret is at the end of the input in these states
+        | none => none
+      match op with
+      | none => (st, "oos")                              -- no selector binding: the key goes on to the navigator / editor
+      | some op =>
+        let r := g.step st.cfg op
+        match r.2 with
+        | .ret false => (st, "oos")                      -- Selector returned false: left to the navigator
+        | o => ({ st with seg := some r.1 }, showObs o)
+    | _, _ => bad
   | _ =>
     match parseSegOp w with
     | some op =>
